@@ -116,7 +116,12 @@ func LRUHistory(r *rand.Rand, c LRUHistoryConfig) []model.Op {
 		switch op.Kind {
 		case "create", "faultcreate":
 			op.Scope = 0
+			// create: 0,1 front to back; 2 tail only (the head stays unwritten);
+			// 3 tail then head. faultcreate: which fault is planted.
 			op.Variant = r.Intn(2)
+			if op.Kind == "create" {
+				op.Variant = []int{0, 1, 2, 2, 3}[r.Intn(5)]
+			}
 			switch x := r.Intn(100); {
 			case x < 6:
 				op.SizeSpec, op.Size = "abs", 0
@@ -191,6 +196,9 @@ func LRUHistory(r *rand.Rand, c LRUHistoryConfig) []model.Op {
 			op.H = r.Intn(1 << 16)
 			op.Data = Bytes(r, 1+r.Intn(12))
 			op.Off = int64(r.Intn(64))
+			if op.Kind == "hwriteat" && r.Intn(4) == 0 {
+				op.Variant = 1 // past the end of what is written: leaves a gap
+			}
 		case "hseek":
 			op.H = r.Intn(1 << 16)
 			op.Whence = r.Intn(3)
